@@ -11,7 +11,8 @@ def zeroVal (env : Env) : Nat → Ty → Val
   | 0, _ => .nil
   | fuel + 1, T =>
     match T with
-    | .uint _ | .int _ | .magic _ => .int 0
+    | .uint _ | .int _ => .int 0
+    | .magic _ => .magic
     | .bool => .bool false
     | .bytes n => .bytes (List.replicate n 0)
     | .cell => .cell (.mk 0 0 [] [])
@@ -26,14 +27,16 @@ def zeroVal (env : Env) : Nat → Ty → Val
     | .eitherRef t => Val.ctor "L" (zeroVal env fuel t)
     | .refT t => zeroVal env fuel t
     | .prim p => Prim.zero p
-    | .vmStack _ => .nil
+    | .vmStack _ | .dictE _ => .nil
     | .encErr _ | .opaque _ => .nil
 where zeroFields (env : Env) : Nat → Fields → Val
   | 0, _ => .nil
   | _ + 1, .nil => .nil
   | fuel + 1, .cons _ _ t rest => .cons (zeroVal env fuel t) (zeroFields env fuel rest)
 
-/-- Magic.ValidateTag: a failed read yields 0 and leaves the cursor where it was -/
+/-- Magic.ValidateTag: a failed read yields 0 and leaves the cursor where it was. The number the decoder stores into
+the field (the tag's value) is not part of the value: the field is dumped as `#` on both sides (tlb.Transaction's
+hand decoder, for one, leaves it 0). -/
 def decodeMagic (tg : Option Tag) (s : Slice) : Outcome (Val × Slice) :=
   match tg with
   | none => .err "unsupported tag"
@@ -41,7 +44,7 @@ def decodeMagic (tg : Option Tag) (s : Slice) : Outcome (Val × Slice) :=
     let (y, s') := match s.readUint t.len with
       | .ok r => r
       | _ => (0, s)
-    if t.val ≠ y then .err "magic prefix not found" else .ok (.int t.val, s')
+    if t.val ≠ y then .err "magic prefix not found" else .ok (.magic, s')
 
 /-- what `decode` does on entry when the current cell is a library cell and no resolver is configured; `viaPtr`:
 the Go value is a pointer to the type (always the case for `Unmarshal(c, &x)`) -/
@@ -164,6 +167,9 @@ def decode (env : Env) : Nat → Ty → Slice → Outcome (Val × Slice)
       else do
         let (vs, s) ← decodeStack env fuel e depth s
         pure (Val.list vs, s)
+    | .dictE _ => do
+      let (ne, s) ← s.readBit
+      if ne then .err "unmodelled" else pure (.nil, s)
     | .encErr _ => .err "unmodelled"
     | .opaque _ => .err "unmodelled"
 
